@@ -18,6 +18,7 @@ EXPLANATION = (
     "application callables run on the caller's behalf.  Every failure handler that re-enters logging "
     "(call-graph cycle through an except body or a deferred error loop) must have a recognised cut."
     "  Keyword splats (C07.splat): a dictionary whose keys are chosen at run time (message fields, extractor results; key-domain analysis CONST/KW/DATA with an interprocedural fixed point over **kw parameters) is passed as **kwargs only to callees none of whose already-bound keyword-passable parameters it can name.  Generator-based application code: the wrapper's value/exception transparency rules of C15 are included."
+    '  C07.excinfo: what write_traceback / _write_extractor_traceback unpack must be a (type, value, traceback) triple on every path (one element of sys.exc_info() is None when no exception is being handled).'
 )
 RULE = ("obligation = (entry point, escaping source) | (core foreign site, containing handler) | "
         "(failure re-entry edge, cut); distinct = distinct constructs; non-trivial = at least one call "
